@@ -699,6 +699,14 @@ func (r *Run) ViewStep(op Op) {
 		tr.Outcome = "stale-" + vo.Q.Stale
 		return
 	}
+	for _, k := range r.W.Model.Keys(op.C) {
+		if ki := r.W.Model.Info(op.C, k); ki.St.HasBody() && ki.IsJSON == nil {
+			// no feed told us whether this version is stored as JSON (a map function sees a
+			// non-JSON body as an empty object): no expectation
+			tr.Outcome = "datatype-unknown"
+			return
+		}
+	}
 	want := normRows(expectedViewRows(r, op.C, spec, *vo.Q))
 	got := normRows(gotRows(res))
 	if vo.Q.Limit > 0 {
@@ -709,7 +717,21 @@ func (r *Run) ViewStep(op Op) {
 	}
 	tr.Prior = fmt.Sprintf("rows=%d", len(want))
 	if !rowsEqual(got, want) {
-		r.Devs = append(r.Devs, Deviation{Clause: "view.rows", Props: c12, Step: r.step,
+		if from := r.foreignRows(op.C, spec, got); from != "" && vo.Q.Limit == 0 {
+			// a row this collection's documents cannot produce, equal to a row of another
+			// collection's index: the query reached across collections
+			r.Devs = append(r.Devs, Deviation{Clause: "view.foreign", Props: []string{"C11", "C12"}, Step: r.step,
+				Msg: fmt.Sprintf("view %s over %s with %v returned %v: %s", spec.JS(), r.W.Cfg.Colls[op.C], vo.Q.Params(), got, from),
+				Sig: "view.foreign"})
+		}
+		props := c12
+		if r.DropHappened {
+			// rows of documents / design documents that went away with a dropped collection are
+			// C11's business too ("dropping a collection removes exactly its own documents, design
+			// documents ...; re-creating it yields an empty collection")
+			props = []string{"C12", "C11"}
+		}
+		r.Devs = append(r.Devs, Deviation{Clause: "view.rows", Props: props, Step: r.step,
 			Msg: fmt.Sprintf("view %s (reduce %q) over %s with %v returned %v, the map function over the current documents gives %v", spec.JS(), spec.Reduce, r.W.Cfg.Colls[op.C], vo.Q.Params(), got, want),
 			Sig: "view.rows"})
 	}
@@ -735,6 +757,36 @@ func (r *Run) ViewStep(op Op) {
 			Msg: fmt.Sprintf("incrementally maintained view %s over %s returned %v but a freshly built identical view returns %v", spec.JS(), r.W.Cfg.Colls[op.C], got, f),
 			Sig: "view.incremental"})
 	}
+}
+
+// foreignRows: does the (unreduced) result contain a row that no document of collection ci can
+// produce through spec but that a view of another collection produces? Returns a description.
+func (r *Run) foreignRows(ci int, spec ViewSpec, got []string) string {
+	no := false
+	own := map[string]bool{}
+	for _, s := range normRows(expectedViewRows(r, ci, spec, ViewQuery{Reduce: &no})) {
+		own[s] = true
+	}
+	for _, g := range got {
+		if own[g] {
+			continue
+		}
+		for cj := range r.W.Cfg.Colls {
+			if cj == ci || r.W.Model.Colls[cj].Dropped {
+				continue
+			}
+			for dd, views := range r.ddocs(cj) {
+				for vn, sp := range views {
+					for _, s := range normRows(expectedViewRows(r, cj, sp, ViewQuery{Reduce: &no})) {
+						if s == g {
+							return fmt.Sprintf("row %s cannot come from a document of this collection; it is a row of view %s/%s of collection %s", g, dd, vn, r.W.Cfg.Colls[cj])
+						}
+					}
+				}
+			}
+		}
+	}
+	return ""
 }
 
 var ddocNames = []string{"dd1", "dd2"}
